@@ -654,7 +654,15 @@ def run(ctx):
     # "each result handle reads the corresponding field of pair i's link-layer response": on the controller the i-th response consumed
     # for a request gets pair index i; the consumption loop is executed abstractly over all short pending lists (rule shared with C12)
     from . import c12
-    c12.check_consumption(ctx, ctx.repo.get_class("netqasm.backend.executor", "Executor"), "C11.X")
+    exe_ = ctx.repo.get_class("netqasm.backend.executor", "Executor")
+    c12.check_consumption(ctx, exe_, "C11.X")
+    # "... of pair i's response" presupposes that a response is attributed to the request it answers: the oldest outstanding request
+    # under the response's own (node, purpose) key and role, retired exactly after its last pair (rules of C12 on the two request
+    # tables, evaluated under this property as C11.Q)
+    from ..report import RenamedRules
+    view = RenamedRules(ctx, {"C12.Q": "C11.Q", "C12.K": "C11.Qk", "C12.D": "C11.Qd", "C12.A": "C11.Qa", "C12.": "C11.Q"})
+    c12.check_queues(view, exe_)
+    c12.check_keys(view, exe_)
     # 0 is an ordinary id / value / address: nothing int-valued may be tested by truthiness (nqsa/truth.py)
     from .. import truth
     truth.check(ctx, "C11.Z", ['netqasm.sdk.build_epr', 'netqasm.sdk.epr_socket', 'netqasm.qlink_compat', 'netqasm.backend.executor'])
